@@ -67,6 +67,10 @@ def classify_exception(e):
     if not tb:
         return None
     soc = [f for f in tb if os.path.realpath(f.filename).startswith(REPO + os.sep)]
+    # frames of the Python standard library (a dict subclass, weakref, functools...) are transparent:
+    # the innermost frame outside it decides whose failure this is
+    std = os.path.dirname(os.path.realpath(os.__file__)) + os.sep
+    tb = [f for f in tb if not (os.path.realpath(f.filename).startswith(std) and "site-packages" not in f.filename)] or tb
     inner = tb[-1]
     inner_file = os.path.realpath(inner.filename)
     am = _amaranth_dir()
